@@ -28,6 +28,7 @@ type Obligation struct {
 	Text    string
 	Safety  bool
 	Ctx     *Ctx
+	Parts   []Term      // when set: the goal is the conjunction of these, each discharged by its own query
 	Inputs  []NamedTerm // terms worth evaluating in a model
 	Outputs []NamedTerm
 	// results
